@@ -987,8 +987,15 @@ def prepareNext (rnd : Bool) (e : Enc) (next : EKind) : Option Enc :=
     some { e with lastKind := next, out := e.out ++ [0x20#8] ++ (if rnd then [0x20#8] else []) }
   else some { e with lastKind := next }
 
-/-- decimal digits of a natural number (`strconv.AppendUint(out, n, 10)`) -/
-def decimal (n : Nat) : Bytes := (Nat.toDigits 10 n).map fun c => BitVec.ofNat 8 c.toNat
+/-- digits of `n`, least significant first, pushed in front of `acc` (fuel: one unit per digit) -/
+def decimalAux : Nat → Nat → Bytes → Bytes
+  | 0, _, acc => acc
+  | fuel+1, n, acc =>
+    let acc' := BitVec.ofNat 8 (0x30 + n % 10) :: acc
+    if n / 10 = 0 then acc' else decimalAux fuel (n / 10) acc'
+
+/-- decimal digits of a natural number (`strconv.AppendUint(out, n, 10)`, from its contract) -/
+def decimal (n : Nat) : Bytes := decimalAux (n + 1) n []
 
 /-- the calls a user of `Encoder` can make.  `WriteFloat` is represented by the literal it appends
 (`strconv.AppendFloat` is not modelled): `float lit`. -/
